@@ -47,6 +47,9 @@ inductive Err
   | daoCalc | invalidDao | rewardTarget | rewardAmount
   | noExtension | unknownFields | emptyExtension | extensionTooLong | invalidExtension | invalidChainRoot | invalidExtraHash
   | txs | exceededCycles
+  -- `DaoScriptSizeVerifier` inside `BlockTxsVerifier` (a bare `TransactionError::DaoLockSizeMismatch`,
+  -- NOT wrapped in `BlockTransactionsError`: the `?` sits after the `map_err`)
+  | daoLockSizeMismatch
 deriving DecidableEq, Repr, Inhabited
 
 /-- `EpochNumberWithFraction` -/
@@ -93,6 +96,8 @@ structure Cfg where
   (`softfork::mainnet::RFC0044_ACTIVE_EPOCH` for `"ckb"`, `softfork::testnet::…` for `"ckb_testnet"`,
   `0` for every other id — `rfc0044EpochOf`) -/
   rfc0044Epoch : Nat := CkbVerif.Gen.Rules.RFC0044_ACTIVE_EPOCH_OTHER
+  /-- `starting_block_limiting_dao_withdrawing_lock` (read by `DaoScriptSizeVerifier`) -/
+  daoLimitStart : Nat := CkbVerif.Gen.Rules.STARTING_BLOCK_LIMITING_DAO_WITHDRAWING_LOCK
 deriving Repr
 
 /-- the three arms of `match self.id.as_str()` in `Consensus::rfc0044_active` -/
@@ -189,7 +194,18 @@ structure Blk where
   cbLockEq : Bool := true
   txsOk : Bool := true
   cycles : Nat := 0
+  /-- what `DaoScriptSizeVerifier` reads, over all non-cellbase transactions of the block: one entry
+  per (input `i`, output `i`) pair in which both cells carry the Nervos DAO type script and the input's
+  data is all zero (a deposit cell): `(input lock total_size, output lock total_size, number of the
+  block that committed the input cell)` -/
+  daoPairs : List (Nat × Nat × Nat) := []
 deriving Repr, Inhabited
+
+/-- `DaoScriptSizeVerifier::verify` over the block's deposit → withdrawing pairs: pairs whose deposit
+was committed below `starting_block_limiting_dao_withdrawing_lock` are skipped, the others need lock
+scripts of equal size (`DaoLockSizeMismatch` otherwise) -/
+def daoLockSizeOk (cfg : Cfg) (b : Blk) : Bool :=
+  b.daoPairs.all fun p => decide (p.2.2 < cfg.daoLimitStart) || p.1 == p.2.1
 
 /-- union of the block's own proposals and its uncles' (`union_proposal_ids`) -/
 def Blk.unionProposals (b : Blk) : Ids := b.proposals ++ b.uncles.flatMap (·.proposals)
@@ -377,6 +393,9 @@ def contextualCheck (cfg : Cfg) (cx : Cx) (b : Blk) : Option Err :=
   | some e => some e
   | none =>
   if !b.txsOk then some .txs else
+  -- `BlockTxsVerifier`: `if rfc0044_active(parent.epoch().number()) { DaoScriptSizeVerifier … .verify()? }`
+  -- (the second rfc0044-gated rule; its error is the bare `DaoLockSizeMismatch`)
+  if cfg.rfc0044Active cx.parentEpochNumber && !daoLockSizeOk cfg b then some .daoLockSizeMismatch else
   if b.cycles > cfg.maxCycles then some .exceededCycles else
   none
 
